@@ -152,6 +152,12 @@ func (c *HeartbeatManager) updateHeartbeatData(stopC chan struct{}, d time.Durat
 	for {
 		select {
 		case <-ticker.C:
+			// a tick may be pending together with the stop signal, do not start another update then
+			select {
+			case <-stopC:
+				return
+			default:
+			}
 
 			heartbeatData := c.heartbeatData(time.Now().UTC(), c.heartBeatCounter())
 
